@@ -37,6 +37,21 @@ def long_element_messages(n, head=b"A", tail=b""):
     return out
 
 
+def class_limit_messages(head=b"A", tail=b""):
+    """the 12-character limit of mnemonics, character data and suffixes for EVERY way such an element can start and
+    continue (suffix: letter or `/` first, then letters, digits, `-` `/` `.`; mnemonic / character data: letter first, then
+    letters, digits, `_`; common command: `*` first, which does not count), at total lengths 11, 12, 13, 14"""
+    out = []
+    for n in (11, 12, 13, 14):
+        for first, fill in ((b"/", b"S"), (b"/", b"."), (b"V", b"/"), (b"V", b"-"), (b"V", b"."), (b"V", b"2"), (b"/", b"2")):
+            suf = first + (fill * n)[:n - 1]
+            out += [head + b" 1 " + suf + tail, head + b" 2.5E3" + suf + tail, head + b" 1" + suf + b" " + tail]
+        for fill in (b"_", b"9", b"a"):
+            w = b"C" + (fill * n)[:n - 1]
+            out += [head + b" " + w + tail, w + tail, w + b"?" + tail, head + b":" + w + tail, b"*" + w + tail, b"*" + w + b"?" + tail]
+    return out
+
+
 def trailing_ws_messages(head=b"A"):
     """an element of legal length followed by white space / terminator so that element + layout exceeds the limit"""
     out = []
@@ -80,7 +95,7 @@ def tree_stream(tier):
             if n in (65536, 65540): msgs += [b"A " + b"A" * n + b";B 1", b"A 1" + b"V" * n + b";B 1", b"SW " + b"A" * n + b";B 2"]
             continue
         msgs += long_element_messages(n, head=b"A", tail=b";B 1")[:16] + long_element_messages(n, head=b"NAME", tail=b";B")[:5] + long_element_messages(n, head=b"SW", tail=b";B 2")[:16]
-    msgs += trailing_ws_messages(b"A") + trailing_ws_messages(b"NAME")
+    msgs += trailing_ws_messages(b"A") + trailing_ws_messages(b"NAME") + class_limit_messages(b"A", b";B 1") + class_limit_messages(b"SW", b";B 2")
     # lexical errors in data position, swallowed or not, with further units behind them
     for h in (b"SW", b"SWR", b"A", b"B"):
         for bad in (b"'abc", b'"abc', b"(1,2", b"(;5,6", b"#", b"#H", b"1E", b"1,#H", b"1,'x'y", b"@", b"\x80", b"1,;B 5", b"1,", b"ABCDEFGHIJKLM", b"#15abc", b"1 2", b"(1;B 2)", b"1,*RST", b"1, *IDN?"):
